@@ -14,7 +14,7 @@ from whoosh.matching import mcore
 concrete_arrays()
 
 LEAVES = C.leaves()
-LSEL = list(range(len(LEAVES))) if THOROUGH else [0, 1, 2, 6, 9, 11, 12, 16, 18, 19]
+LSEL = list(range(len(LEAVES))) if THOROUGH else [0, 1, 2, 6, 9, 11, 12, 16, 18, 19, 21]
 NSEL = len(LSEL)
 NOPS = len(C.OPS)
 PL = 2                       # program length
